@@ -16,7 +16,7 @@ RULE = (
     "A batch of meters (daily legacy / legacy developer splits / current, billing, hourly with an explicit seed under three profiles, "
     "CalTRACK hourly on a 120-day baseline) and generated schedules: a permutation of the batch, a split over 1-8 subprocesses, "
     "unrelated warm-up actions before and between fits (another fit, re-seeding and consuming numpy's global RNG, constructing "
-    "settings, a validation failure), repeated predictions, and a per-subprocess environment (PYTHONHASHSEED in {0, 1, random}, "
+    "settings, a validation failure), repeated predictions, every model serialised again at the end of its process, and a per-subprocess environment (PYTHONHASHSEED in {0, 1, random}, "
     "OMP/MKL/OPENBLAS_NUM_THREADS in {unset, 1, 4}). Oracle: the sha-256 of to_json() and of the raw bytes of predict(fixed "
     "reporting set) of every execution equals the digests obtained for that meter in a fresh single subprocess that does nothing "
     "else. Non-trivial: a comparison made in a different process, or after at least one intervening fit of another meter, than its "
@@ -50,8 +50,11 @@ def batch(tier):
         # settings that share cached/global state with their neighbours: another initial step for the same optimiser, seed 0
         "daily-step-9": meter("daily", "legacy_dev_step", 9),
         "hourly-seed0-10": meter("hourly", "hourly_seed0", 10, ghi=False),
+        # several supplemental columns: their order must not follow the per-process string hash
+        "hourly-suppl-11": meter("hourly", "hourly_supplemental", 11, ghi=False),
     }
     if tier == "thorough":
+        ms["hourly-supplcat-25"] = meter("hourly", "hourly_supplemental_cat", 25, ghi=False)
         for i in range(11, 17):
             ms["daily-legacy-%d" % i] = meter("daily", ["legacy", "legacy_dev_smooth", "legacy_dev_aic"][i % 3], i)
         for i in range(17, 23):
@@ -139,6 +142,11 @@ def make_judge(meters):
                 envtag = "hashseed=%s/threads=%s" % (p["env"]["hashseed"], p["env"]["threads"])
                 # which dimensions differ from the reference environment (hash seed 0, thread variables unset)
                 dims = "+".join(x for x, on in (("hashseed", p["env"]["hashseed"] != "0"), ("threads", p["env"]["threads"] != "unset")) if on) or "same-env"
+                if r.get("at_end"):
+                    if r["model"] != ref[n]["model"]:
+                        rec.violation("%s/model-at-end-digest-differs/%s" % (fam, dims), c,
+                                      "meter %s: to_json() written after the other fits of its process differs from the fresh-process reference (%s)" % (n, envtag))
+                    continue
                 if r["model"] is not None:
                     seen_fits += 1
                     if r["model"] != ref[n]["model"]:
